@@ -1,5 +1,5 @@
 SPECIFICATION SpecT
-CONSTANTS W = 2 MaxEp = 6 MaxInj = 5 Reorder = 1 BuggyInverse = FALSE Depth = 9
+CONSTANTS W = 2 MinEp = 1 MaxEp = 6 MaxInj = 5 Reorder = 1 BuggyInverse = FALSE Depth = 9
 CONSTRAINT Bound
 INVARIANT AlgoIsIdeal
 INVARIANT Stable
